@@ -37,3 +37,13 @@ PROPS["C19"] = {
   "components": {"real": REAL_LIB, "stub": ["yr_arena_create initial size as seen by compiler.c (link-time seam)", "realloc policy (always moves, junk-fills, old block freed/poisoned)"]},
   "assumptions": ["growth positions are sampled through the capacity choice; with capacity 1 every allocation relocates"],
 }
+
+PROPS["C13"] = {
+  "engine": "sim_blocks", "variant": "asan", "level": "fault_enumeration",
+  "parts": [{}],
+  "budget_quick": 60, "budget_thorough": 1500,
+  "exhaustive_quick": False,
+  "rule": "one run = (generated rule set incl. entrypoint / uintN / fullword-at-end probes and modules, buffer from {text with planted patterns, exact sizes 0,1,100,4095,4096,4097,8192 with a match ending on the last byte, PE, ELF}, entry point or block partition, fault plan). Entry points: scanner/mem, file, fd (rules and scanner level), single-block iterator, each compared with yr_rules_scan_mem on an exact-size heap copy (ASan red zone behind the last byte); open/fstat/mmap/fstatfs failures must give the documented error, no callback and balanced fd/mapping ledgers. Interrupted iteration: for a partition into b blocks, EVERY non-empty subset of the b+1 logical iterator calls answers not-ready (once, or 2-3 times at one call) when b <= 5, seeded subsets for b = 6..12; optional failed fetch; concatenated trace over the repeated calls must equal the uninterrupted scan of the same partition, every intermediate call returns exactly ERROR_BLOCK_NOT_READY without rule/finished messages, and the number of calls equals 1 + not-ready answers. Separately, not-ready during the re-iteration performed by rule evaluation. Non-trivial = a fault fired or a non-default entry point ran; distinct = distinct (rules, buffer, partition, plan).",
+  "components": {"real": REAL_LIB, "stub": ["YR_MEMORY_BLOCK_ITERATOR (harness iterator: partition, not-ready plan, failed fetch)", "open/fstat/fstatfs/mmap/munmap/close error injection and ledgers (real syscalls underneath)"]},
+  "assumptions": ["exhaustive over not-ready subsets only up to 5 blocks", "the reference for an interrupted scan is the uninterrupted scan of the same partition (matches spanning a block border are out of scope for both)"],
+}
